@@ -246,13 +246,19 @@ def case_liesel(case, res):
                 res.violation("foreign-key-changed", f"kernel for block {blk} changed parameter {key} (chain {c_}, iteration {t_})", w)
                 break
     # derived quantities: recompute every stored iteration from its strong values
-    iface2 = gs.LieselInterface(model)
-    base = model.state
+    # independent recomputation: direct assignment on a private deep copy of the model and a full update
+    # (deliberately NOT through LieselInterface, which is part of what is being judged)
+    import copy as _copy
+
+    M2 = _copy.deepcopy(model)
+    M2.auto_update = False
     strong_nodes = {"beta": "beta_value", "sigma2_transformed": "sigma2_transformed_value", "tau2": "tau2_value", "b2": "b2_value", "k": "k_value"}
 
     def recompute(vals):
-        st = iface2.update_state({k: vals[k] for k in strong}, base)
-        return {nm: st[nm].value for nm in tracked}
+        for k in strong:
+            M2.vars[k].value = vals[k]
+        M2.update()
+        return {nm: M2.nodes[nm].value for nm in tracked}
 
     flat = {k: jnp.asarray(pos[strong_nodes[k]].reshape((C * T,) + pos[strong_nodes[k]].shape[2:])) for k in strong}
     rec = jax.jit(jax.vmap(recompute))(flat)
